@@ -58,6 +58,7 @@ type HarnessResult struct {
 	ParamsUsed   map[string]int
 	UnwindMax    int
 	CacheHits    int
+	CrossChecked, CrossUnknown, CrossDisagree, RangeExcluded int
 	Fns          map[string]int
 }
 
@@ -93,6 +94,16 @@ func (g *Engine) Explore(harness string, params map[string]int, nworkers int, de
 			mu.Unlock()
 			return
 		}
+		var s2 *Solver
+		crossBudget := g.cfg.CrossCheck
+		if g.cfg.CrossCheck > 0 {
+			s2, _ = NewSolver("cvc5", g.cfg.QueryTimeout)
+		}
+		defer func() {
+			if s2 != nil {
+				s2.Close()
+			}
+		}()
 		defer func() {
 			mu.Lock()
 			res.Solver.Sat += s.Stats.Sat
@@ -122,6 +133,8 @@ func (g *Engine) Explore(harness string, params map[string]int, nworkers int, de
 			e.params = params
 			e.paramsUsed = map[string]int{}
 			e.trailModel = it.model
+			e.solver2 = s2
+			e.crossBudget = &crossBudget
 			e.runPath(entry)
 			var wmodel map[string]uint64
 			feasibleEnd := true
@@ -229,6 +242,10 @@ func (g *Engine) Explore(harness string, params map[string]int, nworkers int, de
 				work = append(work, workItem{w, e.newWorkModels[i]})
 			}
 			res.CacheHits += e.cacheHits + e.trivialFeasible
+			res.CrossChecked += e.crossChecked
+			res.CrossUnknown += e.crossUnknown
+			res.CrossDisagree += e.crossDisagree
+			res.RangeExcluded += e.rangeExcluded
 			if time.Now().After(deadline) {
 				stop = true
 				res.TimedOut = true
